@@ -2383,6 +2383,81 @@ def site_process_completions(fns):
     return ob.result(it, witness="c20_inflight_buffers_own_their_bytes")
 
 
+def site_worker_final_flush(fns):
+    f = mir.find(fns, "write_buffer_worker", None)
+    ob = Ob("site_write_buffer_worker", "write_buffer::write_buffer_worker: (main loop, every path) a request is served by flush_worker_shards(ctx, format, !defer_retirements) and, when the "
+            "requester waits, the result of THAT call is sent back – force_flush is never left without an answer; the worker leaves the loop only on shutdown or a disconnected channel; "
+            "(after the loop) on shutdown the worker runs a final flush with retirements before it exits; (final-flush loop, one ARBITRARY iteration) the loop ends at once on Ok(false), on an "
+            "indeterminate or non-retryable error; every other outcome increments `retries`, and the loop is left when retries reaches FINAL_FLUSH_RETRY_LIMIT – so Drop's join terminates",
+            "main loop unrolled once; one arbitrary iteration of the final-flush loop", f)
+    it = Interp(f, loop_bound=1, pure=PURE, max_paths=8000)
+    served = finals = 0
+    for p in it.run():
+        ob.paths += 1
+        if p.status == "truncated":
+            ob.truncated += 1
+        fl = events(p, "flush_worker_shards")
+        snd = [e for e in p.events if e.kind == "call" and e.callee.endswith("Sender::send")]
+        rcv = [e for e in p.events if e.kind == "call" and e.callee.endswith("Receiver::recv_timeout")]
+        for sd in snd:
+            served += 1
+            prior = [e for e in fl if idx_of(p, e) < idx_of(p, sd)]
+            ob.must_hold(bool(prior) and any(z3.is_expr(a) and z3.eq(it.as_u(a), it.as_u(prior[-1].ret)) for a in sd.args[1:]) or (bool(prior) and contains(sd.args[-1], it.as_u(prior[-1].ret))),
+                         "the answer sent to the waiting flusher is the result of the flush that served its request")
+        if p.status == "return":
+            loads = [e for e in events(p, "Atomic::load") if z3.is_bool(e.ret)]
+            if loads:
+                sd_true, _ = it.entails(p.pc, loads[-1].ret)
+                if sd_true:
+                    finals += 1
+                    after = [e for e in fl if idx_of(p, e) > idx_of(p, loads[-1])]
+                    ob.must_hold(bool(after), "a worker that exits on shutdown ran a final flush first")
+                    for e in after:
+                        ob.need(it, e.pc, e.args[2] if z3.is_bool(e.args[2]) else z3.BoolVal(False), "the final flush also flushes retirements")
+            # leaving the main loop: shutdown seen or channel disconnected
+            if not fl and rcv:
+                d = it.ctx.disc(it.as_u(rcv[-1].ret))
+                ob.need(it, p.pc, d != 0, "without shutdown the worker exits only when receiving failed (disconnected)")
+    ob.must_hold(served >= 1 and finals >= 1, "serving and final-flush paths were reached (%d/%d)" % (served, finals))
+    # ---- final-flush loop, one arbitrary iteration
+    calls = sorted((int(bb[2:]), bb) for bb, st in f.blocks.items() if "flush_worker_shards(" in st[-1] and bb not in f.cleanup)
+    hdr = calls[-1][1] if len(calls) >= 2 else None      # the second call site: the final flush after the main loop
+    if hdr is None or "retries" not in f.debug:
+        raise mir.MirError("final-flush loop not found")
+    rl = f.debug["retries"]
+    it2 = Interp(f, loop_bound=1, pure=PURE, max_paths=8000)
+    r0 = z3.BitVec("retries0", 32 if "32" in f.locals.get(rl, "") else 64)
+
+    def init(it_, st):
+        st["env"][rl] = r0
+    back = exits = 0
+    lim = None
+    for p in it2.run(init, start=hdr, stop=(hdr,)):
+        ob.paths += 1
+        fl = events(p, "flush_worker_shards")
+        if not fl:
+            continue
+        ob.need(it2, fl[0].pc, fl[0].args[2] if z3.is_bool(fl[0].args[2]) else z3.BoolVal(False), "every attempt of the final flush also flushes retirements")
+        res = it2.as_u(fl[0].ret)
+        okd_ = it2.ctx.disc(res) == 0
+        done = z3.And(okd_, z3.Not(it2.ctx.uf("proj_Ok_0", [U], z3.BoolSort())(res)))
+        r1 = p.env.get(rl)
+        if p.status == "backedge":
+            back += 1
+            ob.need(it2, p.pc, z3.Not(done), "the final flush is repeated only when something was left (Ok(true)) or it failed")
+            ob.need(it2, p.pc, r1 == r0 + 1, "every repetition consumes one retry")
+            sl = events(p, "thread::sleep")
+            ob.must_hold(len(sl) == 1, "a repetition backs off once")
+        elif p.status == "return":
+            exits += 1
+            if z3.is_bv(r1) and not z3.eq(r1, r0):
+                ob.need(it2, p.pc, r1 == r0 + 1, "an exit after a failed attempt counted that attempt")
+    ob.must_hold(back >= 2 and exits >= 3, "repeating and exiting iterations were reached (%d/%d)" % (back, exits))
+    ob.must_hold(len(re.findall(r"Eq\(move _\d+, const [\w:]*FINAL_FLUSH_RETRY_LIMIT\)", f.text)) >= 2, "both retry branches compare `retries` with FINAL_FLUSH_RETRY_LIMIT")
+    ob.queries += it2.queries
+    return ob.result(it, witness="c02_acknowledged_value_survives+c13_model_accounting_and_reopen")
+
+
 # ============================================================================ C19: which worker owns which shard
 def c19(fns, tier, env):
     return finalize([site_shard_ownership(fns), site_coordinator_liveness(fns), site_flush_worker_requeue(fns)], env)
@@ -3039,7 +3114,7 @@ def c05(fns, tier, env):
 
 
 def c02(fns, tier, env):
-    return finalize([site_flush_pending_deletions(fns), site_force_flush(fns), site_flush_all(fns), site_drop_order(fns), site_process_deletions(fns), site_write_batch_protocol(fns)], env)
+    return finalize([site_flush_pending_deletions(fns), site_force_flush(fns), site_flush_all(fns), site_drop_order(fns), site_worker_final_flush(fns), site_process_deletions(fns), site_write_batch_protocol(fns)], env)
 
 
 def c09(fns, tier, env):
@@ -3771,7 +3846,7 @@ def site_lock_order(fns):
 
 
 def c18(fns, tier, env):
-    out = [site_lock_order(fns), site_coordinator_liveness(fns), site_force_flush(fns), site_resolve_value_bounded(fns)]
+    out = [site_lock_order(fns), site_coordinator_liveness(fns), site_force_flush(fns), site_resolve_value_bounded(fns), site_worker_final_flush(fns)]
     if tier == "thorough":
         out.append(scan_progress_only(fns))
     return finalize(out, env)
